@@ -139,6 +139,13 @@ def install_api(I):
         cls = interp.load_module("xdsl.ir").globals["SSAValue"]
         return interp.call(cls, [den_, type], {})
 
+    def mk_opresult(interp, den_, type=None):
+        """an OpResult (of an anonymous op) holding a given run-time value"""
+        xir = interp.load_module("xdsl.ir").globals
+        op = interp.call(xir["Operation"], [], {})
+        interp.call(interp.getattr(op, "_init_op"), [[], [den_], [type]], {})
+        return interp.getitem(interp.getattr(op, "results"), 0)
+
     def rt_shape(interp, m, d):
         return interp.getitem(interp.getattr(m, "rt_shape"), d)
 
@@ -161,6 +168,7 @@ def install_api(I):
         fresh_int=NativeFn(fresh_int, "fresh_int"),
         unreachable=NativeFn(unreachable, "unreachable"),
         uf=NativeFn(uf, "uf"),
+        mk_opresult=NativeFn(mk_opresult, "mk_opresult"),
         bv_const=NativeFn(bv_const, "bv_const"), bv_shl=NativeFn(bv_shl, "bv_shl"), bv_lshr=NativeFn(bv_lshr, "bv_lshr"),
         bv_or=NativeFn(bv_or, "bv_or"), bv_and=NativeFn(bv_and, "bv_and"), bv_eq=NativeFn(bv_eq, "bv_eq"),
         bv_ult=NativeFn(bv_ult, "bv_ult"), mk_ssa=NativeFn(mk_ssa, "mk_ssa"),
